@@ -399,7 +399,8 @@ func (r *Reader) Consume(position, maxPosition int64, maxCount int64) ([]Message
 		case err == nil:
 			position = next
 		case errors.Is(err, io.EOF):
-			return msgs[:i], nil
+			// the index names a position at or past the end of the file
+			return nil, errNoMessage
 		default:
 			return nil, err
 		}
